@@ -27,6 +27,38 @@ def strip_crate(p):
     return p
 
 
+def pure_helper(body, module=None):
+    """a small crate-local free function without loops or self-recursion (a predicate / table helper such as
+    `fn is_blank(b: u8) -> bool`), optionally restricted to one module: safe and cheap to look into"""
+    if body.kind != 'Fn' or len(body.blocks) > 40:
+        return False
+    if module is not None and body.npath.rsplit('::', 1)[0] != module:
+        return False
+    ids = {}
+    # no back edges: every successor has a larger index is too strict for MIR; use a DFS for cycles
+    succ = {}
+    for i, b in enumerate(body.blocks):
+        t = b['term']
+        if t['k'] == 'switch':
+            succ[i] = list(t['targets']) + [t['otherwise']]
+        elif t.get('t') is not None:
+            succ[i] = [t['t']]
+        else:
+            succ[i] = []
+        if t['k'] == 'call' and F.norm_path((t['func'] or {}).get('path') or '') == body.npath:
+            return False
+    color = {}
+
+    def cyclic(u):
+        color[u] = 1
+        for v in succ.get(u, ()):
+            if color.get(v) == 1 or (color.get(v) is None and cyclic(v)):
+                return True
+        color[u] = 2
+        return False
+    return not cyclic(0)
+
+
 def classify_extern(ci, args):
     """Event class of a call that has no body to look into (trait call on a type parameter, user callable)."""
     tr = strip_crate(ci.trait)
